@@ -163,6 +163,11 @@ pub enum Op {
     Fmt { a: Dec, var: u8, w: u8, p: u8, pauses: Vec<u16>, err_at: u16, reent: bool },
     /// `to_string()` — never rounds: a control.
     ToStr { a: Dec },
+    /// `write!(sink, "{:.p$}", a)` into a sink that calls
+    /// `RoundingMode::set_default(m)` itself at its first write (a user
+    /// callback in the middle of the library's Display code changing the
+    /// thread's mode) and reads it back.  Afterwards the thread's mode is `m`.
+    FmtSet { a: Dec, p: u8, m: u8 },
     /// Any OTHER public API call (conversions from/to floats, integers and
     /// strings incl. their error paths, +, -, %, checked variants, unary ops,
     /// comparisons, hashing, Debug): none of them has any business with the
@@ -461,8 +466,14 @@ macro_rules! fmt_variants {
 }
 
 /// Extra information about the sink's life during one Fmt op.
-#[derive(Clone, Copy, Default, Debug)]
+#[derive(Clone, Copy, Debug)]
 pub struct SinkInfo {
+    /// FmtSet: what default() returned right after the sink's own
+    /// set_default (255: not applicable / the calls panicked)
+    pub set_in_sink_readback: u8,
+    /// mode read by a Drop guard WHILE THE THREAD WAS UNWINDING out of the
+    /// operation (254: the operation did not panic, 255: the read panicked)
+    pub unwind_mode: u8,
     pub writes: u16,
     pub paused: u16,
     pub err_fired: bool,
@@ -471,6 +482,22 @@ pub struct SinkInfo {
     /// hooks build: pre-emptions at library scheduling points (set by the engine)
     pub ypaused: u16,
     pub yhits: u16,
+}
+
+impl Default for SinkInfo {
+    fn default() -> Self {
+        SinkInfo {
+            set_in_sink_readback: 255,
+            unwind_mode: 254,
+            writes: 0,
+            paused: 0,
+            err_fired: false,
+            reent_modes: [0; 12],
+            n_reent: 0,
+            ypaused: 0,
+            yhits: 0,
+        }
+    }
 }
 
 fn exec_fmt(
@@ -653,6 +680,37 @@ pub fn exec(
             exec_fmt(*a, *var, *w, *p, pauses, *err_at, *reent, on_pause, info)
         }
         Op::ToStr { a } => Outcome::Text { out: d(*a).to_string(), ok: true },
+        Op::FmtSet { a, p, m } => {
+            struct SetSink {
+                buf: String,
+                m: u8,
+                done: bool,
+                readback: u8,
+            }
+            impl fmt::Write for SetSink {
+                fn write_str(&mut self, s: &str) -> fmt::Result {
+                    if !self.done {
+                        self.done = true;
+                        let m = self.m;
+                        self.readback = catch_unwind(move || {
+                            RoundingMode::set_default(MODES[m as usize]);
+                            mode_index(RoundingMode::default())
+                        })
+                        .unwrap_or(255);
+                    }
+                    self.buf.push_str(s);
+                    Ok(())
+                }
+            }
+            let mut sink = SetSink { buf: String::new(), m: *m % 8, done: false, readback: 255 };
+            let x = d(*a);
+            let res = write!(sink, "{:.p$}", x, p = *p as usize);
+            info.set_in_sink_readback = sink.readback;
+            Outcome::Text {
+                out: format!("{} set-in-sink:{}", sink.buf, sink.readback),
+                ok: res.is_ok(),
+            }
+        }
         Op::Misc { which, a, b, x, s } => exec_misc(*which, *a, *b, *x, s),
     }
 }
@@ -837,7 +895,26 @@ pub fn exec_caught(
     on_pause: &mut dyn FnMut(u16),
     info: &mut SinkInfo,
 ) -> Outcome {
-    match catch_unwind(AssertUnwindSafe(|| exec(op, on_pause, info))) {
+    // A guard that lives across the call: if the operation panics, its Drop
+    // runs WHILE THE THREAD IS UNWINDING and asks for the thread's mode there
+    // (code that behaves differently under `std::thread::panicking()`, state
+    // restored or reset by unwind guards inside the library).
+    struct UnwindProbe<'a>(&'a std::cell::Cell<u8>);
+    impl<'a> Drop for UnwindProbe<'a> {
+        fn drop(&mut self) {
+            if std::thread::panicking() {
+                let m = catch_unwind(|| mode_index(RoundingMode::default())).unwrap_or(255);
+                self.0.set(m);
+            }
+        }
+    }
+    let seen = std::cell::Cell::new(254u8);
+    let r = catch_unwind(AssertUnwindSafe(|| {
+        let _probe = UnwindProbe(&seen);
+        exec(op, on_pause, info)
+    }));
+    info.unwind_mode = seen.get();
+    match r {
         Ok(o) => o,
         Err(_) => Outcome::Panicked,
     }
@@ -853,7 +930,7 @@ pub fn exec_plain(op: &Op) -> Outcome {
 // ---------------------------------------------------------------------------
 // kinds (for statistics, L2 grouping, swarm masks)
 
-pub const KIND_NAMES: [&str; 22] = [
+pub const KIND_NAMES: [&str; 23] = [
     "round",
     "checked_round",
     "mul",
@@ -876,6 +953,7 @@ pub const KIND_NAMES: [&str; 22] = [
     "fmt",
     "to_string",
     "misc",
+    "fmt_set_in_sink",
 ];
 
 impl Op {
@@ -903,6 +981,7 @@ impl Op {
             Op::Fmt { .. } => 19,
             Op::ToStr { .. } => 20,
             Op::Misc { .. } => 21,
+            Op::FmtSet { .. } => 22,
         }
     }
     pub fn kind_name(&self) -> &'static str {
@@ -1017,6 +1096,9 @@ impl Op {
                 )
             }
             Op::ToStr { a } => format!("to_string {}", dec_s(*a)),
+            Op::FmtSet { a, p, m } => {
+                format!("fmt_set {} p={} m={}", dec_s(*a), p, MODE_NAMES[(*m % 8) as usize])
+            }
             Op::Misc { which, a, b, x, s } => format!(
                 "misc {} {} k={} x={:016x} s={}",
                 dec_s(*a),
@@ -1169,6 +1251,11 @@ impl Op {
                 }
             }
             "to_string" => Op::ToStr { a: pdec(0)? },
+            "fmt_set" => Op::FmtSet {
+                a: pdec(0)?,
+                p: keynum("p")? as u8,
+                m: mode_from_name(key("m")?).ok_or("fmt_set: bad mode")?,
+            },
             "misc" => {
                 let k = key("k")?;
                 let which = MISC_NAMES
